@@ -92,3 +92,11 @@ func (d *Time) Load() time.Time   { pt("a.load"); return d.v.Load() }
 func (d *Time) Store(x time.Time) { pt("a.store"); d.v.Store(x) }
 
 type Value = ua.Value
+
+type Pointer[T any] struct{ v ua.Pointer[T] }
+
+func NewPointer[T any](x *T) *Pointer[T]          { r := &Pointer[T]{}; r.v.Store(x); return r }
+func (p *Pointer[T]) Load() *T                    { pt("a.load"); return p.v.Load() }
+func (p *Pointer[T]) Store(x *T)                  { pt("a.store"); p.v.Store(x) }
+func (p *Pointer[T]) Swap(x *T) *T                { pt("a.swap"); return p.v.Swap(x) }
+func (p *Pointer[T]) CompareAndSwap(o, n *T) bool { pt("a.cas"); return p.v.CompareAndSwap(o, n) }
